@@ -102,6 +102,23 @@ def run(F, R, tier):
             R.ob("C14-b", "check_resolution: module_slots key comes from ModuleGraph::resolve", bool(leaves) and all(l.kind == "src" for l in leaves),
                  "error walk looks up a dependency target without following redirects", where(n))
 
+    # ---------------- C14-d ------------------------------------------------
+    # while building, entries are filed under the redirect-mapped specifier: a
+    # specifier never holds both a redirect and an entry of its own
+    lw = F.body("graph::Builder::load_with_redirect_count")
+    mapped = [n for n in lw["_nodes"] if n.get("k") == "LetStmt" and "init" in n and any(y.get("k") == "MethodCall" and y["name"] == "get" and peel(y["recv"]).get("field") == "redirects" for y in walk(n["init"]))]
+    if R.ob("C14-d", "load_with_redirect_count maps the specifier through known redirects", len(mapped) == 1, "shape changed", lw["file"]):
+        mlid = mapped[0]["pat"].get("lid")
+        n_i = 0
+        for n in lw["_nodes"]:
+            if n.get("k") == "MethodCall" and n["name"] == "insert" and peel(n["recv"]).get("field") == "module_slots":
+                n_i += 1
+                k_ = peel_value(n["args"][0])
+                ok = k_.get("lid") == mlid or any(peel_value(y).get("lid") == mlid for y in through_locals(k_))
+                R.ob("C14-d", "an entry created while dispatching a load is filed under the redirect-mapped specifier", ok,
+                     "module_slots.insert(%s, ..) in load_with_redirect_count uses the specifier as written, not the one reached through the known redirect: the same specifier would have a redirect and an entry, and lookups (which follow the redirect) disagree with the walk (which finds the entry first)" % expr_text(n["args"][0]), where(n))
+        R.floor("C14-d slot inserts in load_with_redirect_count", n_i, 5)
+
     # ---------------- C14-c ------------------------------------------------
     def slot_match(fnname):
         b = F.body(fnname)
@@ -143,7 +160,9 @@ def run(F, R, tier):
         if not in_types_arm:
             continue
         n_t += 1
-        loaded = any(x.kind == "pat" and x.pol and "graph::ModuleSlot::Module" in pat_text(x.pat) and mentions_field(x.scrut, "module_slots") and x.scrut.get("k") == "MethodCall" and any(mentions_call(y, ["ModuleGraph::resolve"]) for y in through_locals(peel_value(x.scrut["args"][0]))) for x in g if x.scrut is not None)
+        rv = peel(r.get("e", {}))
+        ret_lid = peel_value(rv["args"][0]).get("lid") if ctor_of(rv) == "std::option::Option::Some" else None
+        loaded = any(x.kind == "pat" and x.pol and "graph::ModuleSlot::Module" in pat_text(x.pat) and x.scrut is not None and x.scrut.get("k") == "MethodCall" and mentions_field(x.scrut, "module_slots") and peel_value(x.scrut["args"][0]).get("lid") == ret_lid and ret_lid is not None for x in g)
         R.ob("C14-c", "types module is returned only when it is loaded", loaded,
              "resolve_dependency_from_dep returns the types dependency without checking that its slot holds a module (must fall back to the code module)", where(r))
     R.floor("C14-c prefer-types early returns", n_t, 1)
